@@ -10,6 +10,7 @@ out = sys.argv[1]
 os.makedirs(out, exist_ok=True)
 repl = {}
 pat = re.compile(r'^(\s*)([A-Za-z_][\w\.\(\)\*]*)\.(RUnlock|Unlock)\(\)\s*$')
+deferpat = re.compile(r'^(\s*)defer\s+([A-Za-z_][\w\.\(\)\*]*)\.(RUnlock|Unlock)\(\)\s*$')
 lockpat = re.compile(r'^(\s*)([A-Za-z_][\w\.\(\)\*]*)\.(RLock|Lock)\(\)\s*$')
 for rel in ["go/appencryption/key_cache.go", "go/appencryption/session_cache.go", "go/appencryption/envelope.go", "go/appencryption/session.go"]:
     src = os.path.join(os.environ.get("VERIF_REPO", "/repo"), rel)
@@ -22,6 +23,13 @@ for rel in ["go/appencryption/key_cache.go", "go/appencryption/session_cache.go"
             # schedule enumerator does not park here because an outer lock may be held)
             res.append(f'{lm.group(1)}verifHook("auto.before_lock:{os.path.basename(rel)}:{i}", nil)')
             n += 1
+        dm = deferpat.match(line)
+        if dm:
+            # a deferred unlock: the window opens when the function returns. The statement is replaced by a deferred
+            # closure that unlocks and then reports the point (yield-only: the schedule enumerators do not park here)
+            res.append(f'{dm.group(1)}defer func() {{ {dm.group(2)}.{dm.group(3)}(); verifHook("auto.after_deferred_unlock:{os.path.basename(rel)}:{i}", nil) }}()')
+            n += 1
+            continue
         res.append(line)
         m = pat.match(line)
         if m and "defer" not in line:
